@@ -6,6 +6,7 @@ import vrt_runner
 PID = "C16"
 PROP_V = "Props/Properties_C16.v"
 GEN_MODULES = ["Emit", "Sites"]
+FLOW_FILES = ['debug.c']
 REPLAY_HINT = ("(a) VRT_SEED=<seed> VRT_DEBUGGER=1 VRT_RACE=0 _work/h/mu_mix   (b) _work/c16/drv prints "
                "'<fn> <state> <n> <ret==buf> <hex text> <hex of buf[-8..n+8)>' per case")
 PARTIAL = ["C16(a) is decided by the write-monitor oracle over sampled schedules and by the MuModel tie; a Coq theorem that the "
